@@ -22,16 +22,20 @@ def main():
     tier = "quick"
     if "--tier" in sys.argv:
         tier = sys.argv[sys.argv.index("--tier") + 1]
-    src = "/tmp/seed/%s/out" % prop
+    rnd = ""
+    if "--round" in sys.argv:
+        rnd = sys.argv[sys.argv.index("--round") + 1]
+    base = "/tmp/seed%s" % (rnd if rnd not in ("", "1") else "")
+    src = "%s/%s/out" % (base, prop)
     meta = json.load(open("%s/m%s.json" % (src, n)))
     diff = "%s/m%s.diff" % (src, n)
     demo = "%s/m%s_demo_test.go" % (src, n)
     demo_dir = meta.get("demo_dir", ".").strip("./") or "."
     demo_cmd = meta["demo_cmd"]
-    wt = "/tmp/seed/%s/confirm" % prop
+    wt = "%s/%s/confirm" % (base, prop)
     sh(["git", "-C", "/repo", "worktree", "remove", "--force", wt])
     rc, out = sh(["git", "-C", "/repo", "worktree", "add", "-q", "--detach", wt, "HEAD"])
-    res = {"property": prop, "mutant": "m" + n, "summary": meta.get("summary"), "why_breaks": meta.get("why_breaks"),
+    res = {"property": prop, "mutant": (("r%s" % rnd) if rnd not in ("", "1") else "") + "m" + n, "summary": meta.get("summary"), "why_breaks": meta.get("why_breaks"),
            "needs": meta.get("needs"), "files": meta.get("files"), "demo_dir": demo_dir, "demo_cmd": demo_cmd}
     try:
         demo_dst = os.path.join(wt, demo_dir, "zz_seed_demo_test.go")
@@ -83,7 +87,7 @@ def main():
         finally:
             sh(["git", "-C", "/repo", "checkout", "--", "."])
             sh(["git", "-C", "/repo", "clean", "-fdq"])
-    d = "/verif/seeded/%s-m%s" % (prop, n)
+    d = "/verif/seeded/%s-%sm%s" % (prop, ("r%s" % rnd) if rnd not in ("", "1") else "", n)
     if confirmed:
         os.makedirs(d, exist_ok=True)
         shutil.copy(diff, d + "/patch.diff")
